@@ -291,6 +291,16 @@ def rule_weights(ck):
             fd = t.positional_params[0]
             if fd not in {n.id for n in ast.walk(r) if isinstance(n, ast.Name)}:
                 ck.ob('C06-D4.rates', t, r, c).fail('the cumulative sum is not taken over the forecast rates `%s`' % fd)
+            else:
+                # ... the rates themselves: selection, masking and reshaping only - a transformed quantity (the probability of at least one
+                # event, a logarithm, a power) has other cumulative intervals than the forecast
+                SHAPE = ('ravel', 'flatten', 'filled', 'masked_where', 'masked_equal', 'masked_less_equal', 'masked_array', 'asarray', 'array', 'reshape',
+                         'compressed', 'getdata', 'where', 'copy', 'squeeze', 'astype', 'float64', 'zeros_like', 'asanyarray', 'masked_invalid')
+                odd = [n for n in ast.walk(r) if (isinstance(n, ast.BinOp)) or
+                       (isinstance(n, ast.Call) and not is_marker(n) and (call_name(n) or (n.func.attr if isinstance(n.func, ast.Attribute) else '')).split('.')[-1] not in SHAPE)]
+                oo = ck.ob('C06-D4.rates', t, r, c)
+                (oo.fail('the cumulative sum runs over `%s`, a transformation of the rates: the bin an event is placed in is then not the one whose '
+                         'cumulative-rate interval holds the random number' % u(odd[0])[:70]) if odd else oo.ok('the forecast rates, selected / reshaped only'))
 
 
 def rule_reset(ck):
